@@ -49,7 +49,7 @@ def run(res: C.Result):
     rng = random.Random(res.seed)
     C.prove(res, extra_tb=["CPython text-file buffering and the host file system under process death are modelled (buffer lost on os._exit, pushed data kept) and validated by the real crashes"])
     quick = res.tier == "quick"
-    nruns = 3 if quick else 9
+    nruns = 4 if quick else 11
     stride = 5 if quick else 1
     dist = {"runs": [], "crash_points": 0, "operations": 0, "restart_window_hits": 0, "restart_docs_shrank": 0}
     coq_lines, meta = [], []
@@ -58,7 +58,11 @@ def run(res: C.Result):
     for ri in range(nruns):
         case = {"dir": str(root / f"ref{ri}"), "natoms": rng.randint(5, 8), "geom_seed": rng.randint(0, 999), "seed": rng.randint(1, 2 ** 31),
                 "mode": ["a", "w"][ri % 2], "mu": rng.choice([-0.05, 0.0, 0.05]), "bias": rng.choice([0.4, 0.5, 0.6]), "steps": 5 if quick else 7, "kill_at": None}
-        if ri % 3 == 2:
+        big = ri >= (3 if quick else 9)
+        if big:
+            # a system large enough for the restart document to exceed the file buffer (8 KiB): part of a write reaches the disk before the call returns
+            case.update(natoms=60, mode="w", steps=6, bias=0.35, mu=-0.05)
+        elif ri % 3 == 2:
             # files opened by the user and handed over as file objects (block-buffered; 'w' handle with the default logging mode 'a', or an 'a' handle)
             case.update(handles="fileobj", handle_mode=["w", "a", "w"][(ri // 3) % 3], mode=["a", "a", "w"][(ri // 3) % 3])
         p = run_driver(case)
@@ -126,9 +130,14 @@ def run(res: C.Result):
             except json.JSONDecodeError as e:
                 res.fail(f"restart:after-call:{case['mode']}", f"after step {st['step']} (mode {case['mode']!r}) the restart file is not one JSON document: {e}", {"input": case, "observed": st["run.json"][-200:]})
         # ---- (2) real crashes
-        points = list(range(1, len(ops) + 1, stride))
+        points = list(range(1, len(ops) + 1, stride if not big else 10 ** 9))
         # always include the operations right after a restart truncate (the window) and right after log writes
         points += [gi + 1 for gi, (tag, name, _) in enumerate(ops) if tag == "restart" and name in ("truncate", "write")][:6 if quick else 1000]
+        # ... and every operation of a restart rewrite whose document is SHORTER than its predecessor (the state shrank: a deletion was accepted)
+        rw = [gi for gi, (tag, name, _) in enumerate(ops) if tag == "restart" and name == "write"]
+        for a_, b_ in zip(rw, rw[1:]):
+            if len(ops[b_][2]) < len(ops[a_][2]):
+                points += [g for g in range(b_ - 2, b_ + 4) if a_ + 1 < g <= len(ops) and ops[g - 1][0] == "restart"]
         points = sorted(set(points))
 
         def crash(k):
@@ -172,11 +181,33 @@ def run(res: C.Result):
                         ok = doc.get("attributes", {}).get("step_count") in saved_steps
                     except json.JSONDecodeError:
                         ok = False
-                    if not ok:
+                    if not ok and not (out[tag] == "" or any(d.startswith(out[tag]) for d in chunks["restart"])):
+                        # NOT the known window (empty file / a prefix of the document being written): pieces of two documents, or foreign bytes
+                        res.fail("restart:crash-mixed-documents", f"crash after operation {k} ({ops[k - 1][0]}.{ops[k - 1][1]}): the restart file on disk ({len(out[tag])} bytes) is neither a saved "
+                                 f"document nor the beginning of one - it mixes the new document with what was there before", {"input": case, "crash_after_op": k, "observed": out[tag][-160:]})
+                    elif not ok:
                         dist["restart_window_hits"] += 1
                         res.fail("restart:crash-window", f"crash after operation {k} ({ops[k - 1][0]}.{ops[k - 1][1]}): a restart file had been written before, but what is on disk now ({len(out[tag])} bytes) loads to no saved state",
                                  {"input": case, "crash_after_op": k, "observed": out[tag][:120]})
         shutil.rmtree(root / f"ref{ri}", ignore_errors=True)
+    # ---- one Logger object writing to a second file (rotation mid-run / handed to a fresh simulation): header + one line per call in EVERY file
+    nre = 0
+    for vi, variant in enumerate(["rotate", "fresh"] * (1 if quick else 4)):
+        cc = {"dir": str(root / f"reuse{vi}"), "first": ["path", "fileobj"][(vi // 2) % 2], "second": ["path", "fileobj"][vi % 2], "mode": ["a", "w"][(vi // 2) % 2],
+              "variant": variant, "seed": rng.randint(1, 10 ** 6), "steps1": rng.randint(1, 4), "steps2": rng.randint(1, 4)}
+        p2 = subprocess.run([C.PY, "-W", "ignore", str(C.VERIF / "harness" / "impl" / "c16b.py")], input=json.dumps(cc), capture_output=True, text=True, env=C.IMPL_ENV, timeout=600, cwd="/")
+        nre += 1
+        if p2.returncode != 0:
+            res.fail("exception:logger-reuse", f"re-pointing a Logger to a second file failed: {p2.stderr[-400:]}", {"input": cc})
+            continue
+        o = json.loads(p2.stdout)
+        head = o["a"].split("\n")[0]
+        for key in ("a", "b"):
+            lines = o[key].split("\n")
+            if not o[key].endswith("\n") or lines[0] != head or "Step" not in lines[0] or len(lines) - 1 != 1 + o[f"rows_{key}"]:
+                res.fail("log:second-file", f"a Logger re-pointed to a second file ({variant}): file {key!r} holds {len(lines) - 1} lines, first line {lines[0][:40]!r}; expected the header "
+                         f"{head[:40]!r} plus {o[f'rows_{key}']} rows", {"input": cc, "observed": o[key][:400]})
+    dist["logger_reuse_cases"] = nre
     # ---- evaluate the model
     got = {}
     per = 120
